@@ -431,12 +431,65 @@ impl Space for Chains {
     }
 }
 
+/// RegulateISODate through the constructors that take an overflow option: every (month, day) record around the
+/// valid ones, zero and far values included. A value that comes back is a real date (month 1..12, day 1..days of
+/// the month) - the clamp of the record under constrain, the record itself under reject.
+struct Regulate;
+const REG_YEARS: [i32; 6] = [-1, 0, 2019, 2020, 2023, 2024];
+const REG_DAYS: [u8; 12] = [0, 1, 2, 27, 28, 29, 30, 31, 32, 33, 100, 255];
+impl Space for Regulate {
+    fn name(&self) -> String {
+        "c04.regulate".into()
+    }
+    fn len(&self) -> u64 {
+        (REG_YEARS.len() * 15 * REG_DAYS.len()) as u64
+    }
+    fn block(&self) -> u64 {
+        16
+    }
+    fn eval(&self, i: u64, out: &mut Out) {
+        let ix = unrank(i, &[REG_DAYS.len() as u64, 15, REG_YEARS.len() as u64]);
+        let (y, m, d) = (REG_YEARS[ix[2]], [0u8, 1, 2, 3, 4, 5, 6, 7, 8, 9, 10, 11, 12, 13, 255][ix[1]], REG_DAYS[ix[0]]);
+        out.nontrivial += 1;
+        let attrs = |route: &str| vec![("record", format!("{y}-{m}-{d}")), ("route", route.to_string()), ("zero_field", (m == 0 || d == 0).to_string())];
+        let cm = m.clamp(1, 12);
+        let cd = d.clamp(1, days_in_month(y as i64, cm));
+        let well_formed = |v: &PlainDate| (1..=12).contains(&v.month()) && v.day() >= 1 && v.day() <= days_in_month(v.year() as i64, v.month());
+        for (route, got) in [
+            ("new", call(|| PlainDate::new(y, m, d, Calendar::default()))),
+            ("new_with_overflow(constrain)", call(|| PlainDate::new_with_overflow(y, m, d, Calendar::default(), ArithmeticOverflow::Constrain))),
+            ("PlainDateTime::new", call(|| temporal_rs::PlainDateTime::new(y, m, d, 1, 2, 3, 4, 5, 6, Calendar::default()).and_then(|x| x.to_plain_date()))),
+        ] {
+            // a zero month or day: clamped or refused (the property does not say which), never passed through
+            match &got {
+                Oc::Ok(v) => {
+                    out.law("constrain returns a real date", well_formed(v), || attrs(route));
+                    out.law("constrain returns the clamp of the record", (v.year(), v.month(), v.day()) == (y, cm, cd), || attrs(route));
+                }
+                Oc::Err(ErrorKind::Range, _) if m == 0 || d == 0 => out.transitions += 1,
+                _ => {
+                    out.lockstep("constrain accepts a record with positive fields", &Ok(()), &got.clone().map(|_| ()), |_, _| true, || attrs(route));
+                }
+            }
+        }
+        let valid = (1..=12).contains(&m) && d >= 1 && d <= days_in_month(y as i64, m.clamp(1, 12));
+        for (route, got) in [("try_new", call(|| PlainDate::try_new(y, m, d, Calendar::default()))), ("new_with_overflow(reject)", call(|| PlainDate::new_with_overflow(y, m, d, Calendar::default(), ArithmeticOverflow::Reject)))] {
+            let model = if valid { Ok((y, m, d)) } else { Err(ErrorKind::Range) };
+            out.lockstep("reject keeps a valid record and refuses the others", &model, &got, |a, v| (v.year(), v.month(), v.day()) == *a, || attrs(route));
+        }
+    }
+    fn describe(&self) -> serde_json::Value {
+        json!({"years": REG_YEARS, "months": "0..=13 and 255", "days": REG_DAYS})
+    }
+}
+
 pub fn spaces(env: &Env) -> Vec<Box<dyn Space>> {
     let dates = date_alphabet(env.tier);
     let durs = duration_alphabet(env.tier);
     let mut v: Vec<Box<dyn Space>> = vec![];
     v.push(Box::new(AddSpace { dates: dates.clone(), durs: durs.clone() }));
     v.push(Box::new(DiffSpace { dates: dates.clone() }));
+    v.push(Box::new(Regulate));
     let w2019 = days_from_civil(2019, 1, 1);
     v.push(Box::new(DenseWindow { name: "2019-2022", first: w2019, n: 1461 }));
     if env.tier == Tier::Thorough {
